@@ -498,6 +498,42 @@ def same_spec_object_on_iterable_then_not(col):
 _PCT = {}
 
 
+def reductions_next_to_group_specs(col):
+    """a reduction that merely FOLLOWS a Group step in a chain (directly, several steps later, inside the dict / list spec that follows),
+    or sits under Auto inside a Group, is a plain reduction of its own target: it equals the reference over that target"""
+    from glom import Auto, Pipe
+    from glom.grouping import Group, First
+    items = [[1, 2], [3], [4, 5]]
+    dicts = [{'a': 1}, {'b': 2}, {'a': 3}]
+    tup = lambda acc, x: acc + (x,)
+    cases = [
+        ('Flatten after Group([T])', items, lambda: (Group([T]), Flatten()), [1, 2, 3, 4, 5]),
+        ('Sum after Group([T])', [1, 2, 3], lambda: (Group([T]), Sum()), 6),
+        ('Fold after Group([T])', [1, 2, 3], lambda: (Group([T]), Fold(T, init=tuple, op=tup)), (1, 2, 3)),
+        ('Merge after Group([T])', dicts, lambda: (Group([T]), Merge()), {'a': 3, 'b': 2}),
+        ('Flatten two steps after a Group', items, lambda: (Group([T]), T, list, Flatten()), [1, 2, 3, 4, 5]),
+        ('Flatten in a Pipe after a Group', items, lambda: Pipe(Group([T]), Flatten()), [1, 2, 3, 4, 5]),
+        ('Sum in the dict spec after a Group', [1, 2, 3], lambda: (Group([T]), {'total': Sum(), 'n': len}), {'total': 6, 'n': 3}),
+        ('Flatten per element of the list spec after a Group', [[[1], [2]], [[3]]], lambda: (Group([T]), [Flatten()]), [[1, 2], [3]]),
+        ('Sum of a grouped dict (values by key)', [1, 2, 3, 4], lambda: (Group({T % 2: [T]}), {'odd': (T[1], Sum()), 'even': (T[0], Sum())}), {'odd': 4, 'even': 6}),
+        ('Sum under Auto inside a Group (per item, last wins)', [[1, 2], [3, 4]], lambda: Group({len: Auto(Sum())}), {2: 7}),
+        ('Flatten under Auto inside a Group', [[[1], [2]], [[3]]], lambda: Group([Auto(Flatten())]), [[1, 2], [3]]),
+        ('Group after a reduction after a Group', [[1, 2], [3]], lambda: (Group([T]), Flatten(), Group({T % 2: [T]})), {1: [1, 3], 0: [2]}),
+        ('First().. then Sum', [[1, 2], [3]], lambda: (Group(First()), Sum()), 3),
+    ]
+    for desc, target, mk, want in cases:
+        spec = mk()
+        for n in (1, 2):
+            import copy
+            got = call(G, copy.deepcopy(target), spec)
+            col.case(('next-to-group', desc, n), True)
+            col.count('glom_evaluations')
+            col.count('reductions_next_to_group_specs')
+            if not (got.ok and got.value == want and type(got.value) is type(want)):
+                col.violation('C15/reduction-next-to-a-Group-is-not-the-plain-reduction', '%s, evaluation #%d on %r: %r, expected %r' % (desc, n, target, got, want), None)
+                break
+
+
 class NoIter:
     def __repr__(self):
         return 'NoIter()'
@@ -561,6 +597,7 @@ def run(ctx):
     if ctx.shard == 0:
         non_iterables(col)
         same_spec_object_on_iterable_then_not(col)
+        reductions_next_to_group_specs(col)
         lazily_flatten_items_of_non_iterable_types(col)
         non_iterables(col, ':after-reductions-over-items-of-such-types')
     for i in range(ctx.n(20000, 100000)):
